@@ -17,11 +17,14 @@
 EXTENDS PainterDefs
 
 CONSTANTS L,        \* cells 1..L (covers are arbitrary non-empty subsets: boxes and masked shapes alike)
-          Variant   \* assembly order, see PainterDefs!Before
+          Variant,  \* assembly order, see PainterDefs!Before; "arbitrary_ties" = any sorted permutation
+          NObj,     \* number of static objects including the volume
+          Family    \* "small": NObj = 4, all covers x all orders, and all material kinds
+                    \* "ties" : any NObj, many objects sharing a placement order (one or two tie groups)
 
 Cells == 1..L
 Covers == (SUBSET Cells) \ {{}}
-NObj == 4           \* the volume + 3 objects
+ASSUME Family = "small" => NObj = 4
 
 \* material catalogue (integers): plain isotropic, diagonal, full tensor, magnetic, conductive, magnetic+lossy
 Mat(eps, mu, se, sm) == [ eps |-> eps, mu |-> mu, se |-> se, sm |-> sm ]
@@ -53,11 +56,19 @@ VolMats == IF L >= 4 THEN 1..NMat ELSE {1, 5}      \* quick tier: volume materia
 KindScenes == { << Obj(-1000, Cells, m[1], {}), Obj(1, {1, 2}, m[2], {}), Obj(0, {2, 3}, m[3], {x}), Obj(1, {2}, m[4], {}) >> :
                   m \in { f \in [1..4 -> 1..NMat] : f[1] \in VolMats }, x \in {1, 4, 7} }
 
-Init == /\ objs \in GeoScenes \cup KindScenes
+\* NObj - 1 objects whose placement orders are 0 or 1 (all tied, or two tie groups interleaved in the list in every
+\* way), covers from three mutually overlapping sets, all materials distinct from their list neighbours
+TieCovers == { Cells, Cells \ {1}, Cells \ {L} }
+TieScenes == { [ i \in 1..NObj |-> IF i = 1 THEN Obj(-1000, Cells, 1, {})
+                                   ELSE Obj(o[i], c[i], 2 + (i % 6), {}) ] :
+                 o \in [2..NObj -> {0, 1}], c \in [2..NObj -> TieCovers] }
+Scenes == IF Family = "ties" THEN TieScenes ELSE GeoScenes \cup KindScenes
+
+Init == /\ objs \in Scenes
         /\ pc = "tiers" /\ k = 0
         /\ tiers = [ eps |-> 0, mu |-> 0, se |-> 0, sm |-> 0 ]
         /\ owner = [ c \in Cells |-> 0 ]
-        /\ Order = PaintOrder(objs, Variant)
+        /\ Order \in IF Variant = "arbitrary_ties" THEN SortedAnyTies(objs) ELSE { PaintOrder(objs, Variant) }
 
 SelectTiers ==
     /\ pc = "tiers"
